@@ -11,7 +11,7 @@ use rayon::prelude::*;
 use rip_workspace::Workspace;
 use serde_json::{json, Value};
 
-use crate::common::{scratch_dir, tree_snapshot, Opts, Report, Tier};
+use crate::common::{scratch_dir, Opts, Report, Tier};
 
 type Files = BTreeMap<String, Vec<u8>>;
 
@@ -218,7 +218,7 @@ fn materialize(root: &Path, files: &Files) {
 }
 
 fn observe(root: &Path) -> (Files, Vec<String>) {
-    let snap = tree_snapshot(root);
+    let snap = crate::common::tree_snapshot_skipping(root, ".rip");
     let mut files = Files::new();
     let mut dirs = Vec::new();
     for (k, v) in snap {
